@@ -915,3 +915,372 @@ Proof.
   assert (Hnd' : NoDup (map fst (combine names (vals v)))) by (rewrite combine_keys by (rewrite vals_length; lia); exact Hnd).
   rewrite kw_last_NoDup by exact Hnd'. apply kw_get_NoDup_In; [exact Hnd' | apply in_combine_vals, Hin].
 Qed.
+
+(** * Bilateral *)
+Lemma param_names_bi b : param_names (MBi b) = Some (map fst (b_got b)).
+Proof. reflexivity. Qed.
+Lemma param_values_bi b : param_values (MBi b) = Some (map snd (b_got b)).
+Proof. reflexivity. Qed.
+Lemma b_names_length b : length (map fst (b_items b)) = length (b_items b).
+Proof. apply map_length. Qed.
+
+Theorem bi_given_params_scored : C12_bi_given_params_scored_stmt.
+Proof.
+  intros R lik b v g H Hl Hacc Hg m'. set (names := map fst (b_items b)) in *.
+  pose proof (bi_set_spec b [] (kw_of names v) H) as Hs. cbv zeta in Hs. rewrite Hacc in Hs. destruct Hs as (qs & _ & Hsnd & _).
+  pose proof (bi_set_get_keyword b v H Hl) as Hk. cbv zeta in Hk. fold names in Hk.
+  destruct Hk as (_ & Hvals & Hnames); [rewrite Hsnd; discriminate|].
+  rewrite (likelihood_both_forms R lik None (MBi b) names (vals v) g).
+  - cbn [set_params]. fold (kw_of names v).
+    destruct (b_set_params b [] (kw_of names v)) as [b' o] eqn:E. cbn [fst snd] in *. subst o m'. cbn [fst snd].
+    split; [reflexivity|]. rewrite param_names_bi, param_values_bi, Hnames, Hvals. split; reflexivity.
+  - unfold named_params. rewrite param_names_bi, (b_got_spec b H). reflexivity.
+  - apply b_items_NoDup, H.
+  - rewrite vals_length. unfold names. rewrite b_names_length. exact Hl.
+  - exact Hg.
+Qed.
+
+Theorem bi_invalid_gives_minus_inf : C12_bi_invalid_gives_minus_inf_stmt.
+Proof.
+  intros R lik b v g H Hl Hacc Hg. set (names := map fst (b_items b)) in *.
+  rewrite (likelihood_both_forms R lik None (MBi b) names v g).
+  - cbn [set_params fst snd]. pose proof (bi_set_spec b [] (combine names v) H) as Hs. cbv zeta in Hs. rewrite Hacc in Hs.
+    destruct (b_set_params b [] (combine names v)) as [b' o]. cbn [snd] in *. subst o. reflexivity.
+  - unfold named_params. rewrite param_names_bi, (b_got_spec b H). reflexivity.
+  - apply b_items_NoDup, H.
+  - unfold names. rewrite b_names_length. exact Hl.
+  - exact Hg.
+Qed.
+
+(** lookup of a reported name in a full keyword assignment with arbitrary values *)
+Lemma b_lk_combine b (vs : list val) k x : b_names_ok b = true -> length vs = length (b_items b) ->
+  In (k, x) (combine (map fst (b_items b)) vs) -> b_lk (combine (map fst (b_items b)) vs) k = Some x.
+Proof.
+  intros Hok Hl Hin. set (names := map fst (b_items b)) in *. set (kw := combine names vs).
+  assert (Hkeys : map fst kw = names) by (apply combine_keys; unfold names; rewrite map_length; lia).
+  assert (Hnd : NoDup (map fst kw)) by (rewrite Hkeys; apply b_items_NoDup, Hok).
+  assert (Hk : In k names) by (apply in_combine_l in Hin; exact Hin).
+  assert (Hlast : kw_last k kw = Some x) by (rewrite kw_last_NoDup by exact Hnd; apply kw_get_NoDup_In; [exact Hnd | exact Hin]).
+  assert (Hnone : forall k', ~ In k' names -> kw_last k' kw = None).
+  { intros k' Hni. rewrite kw_last_NoDup by exact Hnd. apply kw_get_In_None. rewrite Hkeys. exact Hni. }
+  destruct (b_name_form b Hok k Hk) as [(n & t & ->)|[(n & t & ->)|(n & t & -> & H1 & H2 & Hni)]].
+  - cbn [b_lk String.eqb Ascii.eqb Bool.eqb]. unfold side_lk, eff. rewrite Hlast. reflexivity.
+  - cbn [b_lk]. change (String.eqb "contra" "ipsi") with false. change (String.eqb "contra" "contra") with true. cbv iota.
+    unfold side_lk, eff. rewrite Hlast. reflexivity.
+  - rewrite b_lk_plain by assumption. unfold side_lk, eff. rewrite (Hnone _ Hni).
+    unfold head_of. cbn [partition_key fst mem sides]. apply str_eqb_neq in H1, H2. rewrite H1, H2. cbn [orb]. rewrite Hlast. reflexivity.
+Qed.
+
+Lemma nth_error_combine {A B} (l : list A) : forall (l' : list B) i a b,
+  nth_error l i = Some a -> nth_error l' i = Some b -> In (a, b) (combine l l').
+Proof.
+  induction l as [|x l IH]; intros [|y l'] [|i] a b Ha Hb; cbn in *; try discriminate.
+  - injection Ha as ->. injection Hb as ->. left. reflexivity.
+  - right. apply (IH l' i); assumption.
+Qed.
+Lemma plan_In_val lk ps : forall a k x, In k (map fst ps) -> lk k = Some x -> In x (plan lk ps a).
+Proof.
+  induction ps as [|[k' old] r IH]; intros a k x Hin Hlk; [destruct Hin|]. cbn [plan map fst] in *. destruct Hin as [->|Hin].
+  - left. rewrite Hlk. reflexivity.
+  - right. apply (IH _ k); assumption.
+Qed.
+Lemma all_unit_In_None l x : In x l -> check_unit x = None -> all_unit l = None.
+Proof. intros Hin Hc. apply In_nth_error in Hin. destruct Hin as [i Hi]. apply (all_unit_nth_None l i x Hi Hc). Qed.
+
+Lemma b_spread_length b : b_names_ok b = true -> length (b_spread_items b) = b_num_spread b.
+Proof. intros H. unfold b_num_spread. rewrite b_items_split, app_length. lia. Qed.
+Lemma b_spread_order_keys b k :
+  In k (map fst (b_spread_items b))
+  <-> In k (map fst (side_order is_tumor_spread (b_symT b) b ++ side_order sel_lnl (b_symL b) b)).
+Proof.
+  unfold b_spread_items, side_order, u_sel_items, u_tumor_items, u_lnl_items.
+  destruct (b_symT b), (b_symL b); rewrite ?map_app, ?pre_app, ?map_app, ?in_app_iff; tauto.
+Qed.
+
+Theorem bi_invalid_position : C12_bi_invalid_position_stmt.
+Proof.
+  intros b v i x Hok Hl Hn Hx. set (names := map fst (b_items b)) in *. set (kw := combine names v).
+  assert (Hi : i < length v) by (apply nth_error_Some; rewrite Hn; discriminate).
+  destruct (nth_error names i) as [k|] eqn:Ek; [|apply nth_error_None in Ek; unfold names in Ek; rewrite map_length in Ek; lia].
+  assert (Hlk : b_lk kw k = Some x) by (apply b_lk_combine; [exact Hok | exact Hl | apply (nth_error_combine names v i); assumption]).
+  unfold b_accepts. fold kw. rewrite (b_new_split b [] kw Hok).
+  set (lenT := side_len is_tumor_spread (b_symT b) b). set (lenL := side_len sel_lnl (b_symL b) b).
+  assert (HnS : b_num_spread b = lenT + lenL) by apply (b_num_spread_eq b Hok).
+  set (sT := side_plan is_tumor_spread (b_symT b) b [] kw). set (sL := side_plan sel_lnl (b_symL b) b (skipn lenT []) kw).
+  assert (Hlen : length (sT ++ sL) = b_num_spread b) by (rewrite app_length; unfold sT, sL; rewrite !side_plan_length; fold lenT lenL; lia).
+  rewrite app_assoc, firstn_app_len, skipn_app_len by exact Hlen.
+  destruct (Nat.lt_ge_cases i (b_num_spread b)) as [Hlt|Hge].
+  - assert (Hc : check_unit x = None) by (destruct Hx as [->|[_ Hc]]; [reflexivity | exact Hc]).
+    assert (Hk : In k (map fst (b_spread_items b))).
+    { unfold names in Ek. rewrite b_items_split, map_app in Ek. rewrite nth_error_app1 in Ek by (rewrite map_length, (b_spread_length b Hok); exact Hlt).
+      apply nth_error_In in Ek. exact Ek. }
+    apply b_spread_order_keys in Hk.
+    assert (Hin : In x (sT ++ sL)).
+    { unfold sT, sL. rewrite <- !(plan_side_order _ _ _ _ _ Hok). rewrite skipn_nil.
+      replace (plan (b_lk kw) (side_order is_tumor_spread (b_symT b) b) [] ++ plan (b_lk kw) (side_order sel_lnl (b_symL b) b) [])
+        with (plan (b_lk kw) (side_order is_tumor_spread (b_symT b) b ++ side_order sel_lnl (b_symL b) b) [])
+        by (rewrite plan_app, skipn_nil; reflexivity).
+      apply (plan_In_val _ _ _ k); assumption. }
+    rewrite (all_unit_In_None _ x Hin Hc). reflexivity.
+  - destruct Hx as [->|[Hlt _]]; [|lia].
+    assert (Hk : In k (map fst (u_dist_items (b_ipsi b)))).
+    { unfold names in Ek. rewrite b_items_split, map_app in Ek. rewrite nth_error_app2 in Ek by (rewrite map_length, (b_spread_length b Hok); exact Hge).
+      apply nth_error_In in Ek. exact Ek. }
+    assert (Hin : In Bad (plan (side_lk "ipsi" kw) (u_dist_items (b_ipsi b)) (skipn (b_num_spread b) []))).
+    { rewrite <- (plan_b_lk_dists kw (b_ipsi b)) by apply (b_names_ok_parts b Hok). apply (plan_In_val _ _ _ k); assumption. }
+    apply In_nth_error in Hin. destruct Hin as [j Hj].
+    assert (Hjl : j < length (dists_items (u_dists (b_ipsi b)))).
+    { assert (Hj' : j < length (plan (side_lk "ipsi" kw) (u_dist_items (b_ipsi b)) (skipn (b_num_spread b) []))) by (apply nth_error_Some; rewrite Hj; discriminate).
+      rewrite plan_length in Hj'. exact Hj'. }
+    rewrite (dists_put_Bad _ _ _ j Hj Hjl). rewrite andb_false_r. reflexivity.
+Qed.
+
+(** a plan that finds a keyword for every parameter does not look at the old values *)
+Lemma plan_covered lk p1 : forall p2 a, map fst p1 = map fst p2 -> (forall k, In k (map fst p1) -> lk k <> None) ->
+  plan lk p1 a = plan lk p2 a.
+Proof.
+  induction p1 as [|[k o1] r1 IH]; intros [|[k2 o2] r2] a Hk Hc; cbn [map fst] in Hk; try discriminate; [reflexivity|].
+  injection Hk as <- Hk. cbn [plan]. destruct (lk k) eqn:E; [|exfalso; apply (Hc k); [left; reflexivity | exact E]].
+  cbn [pick]. f_equal. apply IH; [exact Hk | intros k' Hk'; apply Hc; right; exact Hk'].
+Qed.
+
+Lemma sk_bi_inv b1 b2 : sk_bi b1 = sk_bi b2 ->
+  sk_uni (b_ipsi b1) = sk_uni (b_ipsi b2) /\ sk_uni (b_contra b1) = sk_uni (b_contra b2)
+  /\ b_symT b1 = b_symT b2 /\ b_symL b1 = b_symL b2.
+Proof.
+  intros H. repeat split.
+  - apply (f_equal b_ipsi) in H. exact H.
+  - apply (f_equal b_contra) in H. exact H.
+  - apply (f_equal b_symT) in H. exact H.
+  - apply (f_equal b_symL) in H. exact H.
+Qed.
+Lemma shape_eqb_of_shape es1 : forall es2, shape es1 = shape es2 -> shape_eqb es1 es2 = true.
+Proof.
+  induction es1 as [|e1 r1 IH]; intros [|e2 r2] H; cbn [shape map] in H; try discriminate; [reflexivity|].
+  injection H as Hn Hk Hr. cbn [shape_eqb]. rewrite Hn, Hk, String.eqb_refl, Nat.eqb_refl. apply IH, Hr.
+Qed.
+Lemma keys_eqb_refl k : keys_eqb k k = true.
+Proof. induction k as [|a r IH]; [reflexivity|]. cbn [keys_eqb]. rewrite path_eqb_refl. exact IH. Qed.
+Lemma b_names_ok_sk b1 b2 : sk_bi b1 = sk_bi b2 -> b_names_ok b1 = true -> b_names_ok b2 = true.
+Proof.
+  intros Hsk H. destruct (sk_bi_inv b1 b2 Hsk) as (Hi & Hc & _ & _).
+  destruct (b_names_ok_parts b1 H) as (H1 & H2 & Hshape & Htri).
+  pose proof (b_dist_keys b1 H) as Hdk.
+  unfold b_names_ok. rewrite <- (u_names_ok_sk _ _ Hi), <- (u_names_ok_sk _ _ Hc), H1, H2. cbn [andb].
+  apply andb_true_iff. split.
+  - unfold same_shape. apply andb_true_iff. split.
+    + destruct (sk_uni_inv _ _ Hi) as (_ & Hbi & _). destruct (sk_uni_inv _ _ Hc) as (_ & Hbc & _).
+      rewrite <- Hbi, <- Hbc. unfold b_names_ok, same_shape in H. rewrite !andb_true_iff in H. tauto.
+    + apply shape_eqb_of_shape. rewrite <- (sk_shape _ _ Hi), <- (sk_shape _ _ Hc). exact Hshape.
+  - unfold same_dist_keys. fold (u_dist_items (b_ipsi b2)) (u_dist_items (b_contra b2)).
+    rewrite <- (u_dist_keys_sk _ _ Hi), <- (u_dist_keys_sk _ _ Hc), Hdk. apply keys_eqb_refl.
+Qed.
+Lemma side_order_keys_sk sel sym b1 b2 : kind_sel sel -> sk_bi b1 = sk_bi b2 ->
+  map fst (side_order sel sym b1) = map fst (side_order sel sym b2).
+Proof.
+  intros Hk Hsk. destruct (sk_bi_inv b1 b2 Hsk) as (Hi & Hc & _ & _). unfold side_order. destruct sym.
+  - apply sk_sel_keys; assumption.
+  - rewrite !map_app, !pre_keys, (sk_sel_keys sel _ _ Hk Hi), (sk_sel_keys sel _ _ Hk Hc). reflexivity.
+Qed.
+Lemma b_set_order_keys_sk b1 b2 : sk_bi b1 = sk_bi b2 -> map fst (b_set_order b1) = map fst (b_set_order b2).
+Proof.
+  intros Hsk. destruct (sk_bi_inv b1 b2 Hsk) as (Hi & _ & HT & HL). rewrite !b_set_order_split, !map_app, HT, HL.
+  rewrite (side_order_keys_sk is_tumor_spread _ b1 b2 kind_sel_tumor Hsk), (side_order_keys_sk sel_lnl _ b1 b2 kind_sel_lnl Hsk).
+  fold (u_dist_items (b_ipsi b1)). rewrite (u_dist_keys_sk _ _ Hi). reflexivity.
+Qed.
+Lemma b_items_keys_sk b1 b2 : sk_bi b1 = sk_bi b2 -> map fst (b_items b1) = map fst (b_items b2).
+Proof.
+  intros Hsk. destruct (sk_bi_inv b1 b2 Hsk) as (Hi & Hc & HT & HL). unfold b_items. rewrite <- HT, <- HL.
+  pose proof (sk_sel_keys is_tumor_spread _ _ kind_sel_tumor Hi) as HTi. pose proof (sk_sel_keys sel_lnl _ _ kind_sel_lnl Hi) as HLi.
+  pose proof (sk_sel_keys is_tumor_spread _ _ kind_sel_tumor Hc) as HTc. pose proof (sk_sel_keys sel_lnl _ _ kind_sel_lnl Hc) as HLc.
+  pose proof (u_dist_keys_sk _ _ Hi) as HD. unfold u_sel_items in *.
+  fold (u_tumor_items (b_ipsi b1)) (u_tumor_items (b_ipsi b2)) (u_lnl_items (b_ipsi b1)) (u_lnl_items (b_ipsi b2)) in HTi, HLi.
+  fold (u_tumor_items (b_contra b1)) (u_tumor_items (b_contra b2)) (u_lnl_items (b_contra b1)) (u_lnl_items (b_contra b2)) in HTc, HLc.
+  destruct (b_symT b1), (b_symL b1); rewrite ?map_app, ?pre_app, ?map_app, ?pre_keys, ?HTi, ?HLi, ?HTc, ?HLc, ?HD; reflexivity.
+Qed.
+
+(** the three plans of a full keyword assignment do not depend on the current values *)
+Section BiFull.
+  Variables (b : bilateral) (v : list Qc).
+  Hypothesis Hok : b_names_ok b = true.
+  Hypothesis Hl : length v = length (b_items b).
+  Let names := map fst (b_items b).
+  Let kw := kw_of names v.
+
+  Lemma bi_kw_full k : In k names -> exists x, In (k, x) (combine names (vals v)) /\ kw_last k kw = Some x.
+  Proof.
+    intros Hk. destruct (In_nth_error _ _ Hk) as [i Hi].
+    assert (Hi' : i < length (vals v)).
+    { rewrite vals_length, Hl, <- (map_length fst (b_items b)). apply nth_error_Some. fold names. rewrite Hi. discriminate. }
+    destruct (nth_error (vals v) i) as [x|] eqn:Ex; [|apply nth_error_None in Ex; lia].
+    assert (Hin : In (k, x) (combine names (vals v))) by (apply (nth_error_combine names (vals v) i); assumption).
+    exists x. split; [exact Hin|].
+    assert (Hnd : NoDup (map fst kw)).
+    { unfold kw, kw_of. rewrite combine_keys by (unfold names; rewrite vals_length, map_length; lia). apply b_items_NoDup, Hok. }
+    rewrite kw_last_NoDup by exact Hnd. apply kw_get_NoDup_In; [exact Hnd | exact Hin].
+  Qed.
+  Lemma b_lk_full k : In k names -> b_lk kw k <> None.
+  Proof.
+    intros Hk. destruct (bi_kw_full k Hk) as (x & Hin & _).
+    unfold kw, kw_of, names in *. rewrite (b_lk_combine b (vals v) k x Hok); [discriminate | rewrite vals_length; exact Hl | exact Hin].
+  Qed.
+  Lemma side_order_names sel sym : (sel = is_tumor_spread /\ sym = b_symT b) \/ (sel = sel_lnl /\ sym = b_symL b) ->
+    forall k, In k (map fst (side_order sel sym b)) -> In k names.
+  Proof.
+    intros Hs k Hk. apply b_order_same_names. rewrite b_set_order_split, !map_app, !in_app_iff.
+    destruct Hs as [[-> ->]|[-> ->]]; [left | right; left]; exact Hk.
+  Qed.
+  Lemma dist_names k : In k (map fst (u_dist_items (b_ipsi b))) -> In k names.
+  Proof. intros Hk. unfold names. rewrite b_items_split, map_app, in_app_iff. right. exact Hk. Qed.
+  Lemma side_lk_contra_dist k : In k (map fst (u_dist_items (b_contra b))) -> side_lk "contra" kw k <> None.
+  Proof.
+    intros Hk. rewrite (b_dist_keys b Hok) in Hk. destruct (bi_kw_full k (dist_names k Hk)) as (x & _ & Hlast).
+    destruct (dist_key_form (b_ipsi b) k Hk) as (t & s & -> & Ht).
+    destruct (not_side_TS b Hok t Ht) as [H1 H2].
+    unfold side_lk, eff. destruct (kw_last ["contra"; t; s] kw); [discriminate|].
+    unfold head_of. cbn [partition_key fst mem sides]. apply str_eqb_neq in H1, H2. rewrite H1, H2. cbn [orb]. rewrite Hlast. discriminate.
+  Qed.
+End BiFull.
+
+Lemma sel_len_sk sel u1 u2 : kind_sel sel -> sk_uni u1 = sk_uni u2 -> length (u_sel_items sel u1) = length (u_sel_items sel u2).
+Proof. intros Hk H. rewrite <- !(map_length fst), (sk_sel_keys sel u1 u2 Hk H). reflexivity. Qed.
+
+Lemma b_final_sk b1 b2 qsT qsL dsi dsc : sk_bi b1 = sk_bi b2 -> b_names_ok b1 = true ->
+  length qsT = side_len is_tumor_spread (b_symT b1) b1 -> length qsL = side_len sel_lnl (b_symL b1) b1 ->
+  b_final b1 qsT qsL dsi dsc = b_final b2 qsT qsL dsi dsc.
+Proof.
+  intros Hsk Hok HlT HlL. destruct (sk_bi_inv b1 b2 Hsk) as (Hi & Hc & HT & HL).
+  pose proof (contra_sel_length is_tumor_spread b1 kind_sel_tumor Hok) as HcT.
+  pose proof (contra_sel_length sel_lnl b1 kind_sel_lnl Hok) as HcL.
+  unfold b_final, b_after_spread, side_result, b_with. cbn [b_ipsi b_contra b_symT b_symL].
+  rewrite !(u_sel_items_put_other is_tumor_spread sel_lnl) by (try apply kind_sel_lnl; apply tumor_not_lnl).
+  rewrite <- HT, <- HL, <- (sel_len_sk is_tumor_spread _ _ kind_sel_tumor Hi), <- (sel_len_sk sel_lnl _ _ kind_sel_lnl Hi).
+  unfold side_len in HlT, HlL.
+  set (nT := length (u_sel_items is_tumor_spread (b_ipsi b1))) in *. set (nL := length (u_sel_items sel_lnl (b_ipsi b1))) in *.
+  f_equal.
+  - apply leaf_absorb; [exact Hi | |]; rewrite firstn_length.
+    + change (length (u_tumor_items (b_ipsi b1))) with nT. destruct (b_symT b1); lia.
+    + change (length (u_lnl_items (b_ipsi b1))) with nL. destruct (b_symL b1); lia.
+  - apply leaf_absorb; [exact Hc | |].
+    + change (u_tumor_items (b_contra b1)) with (u_sel_items is_tumor_spread (b_contra b1)). rewrite HcT. fold nT.
+      destruct (b_symT b1); [rewrite firstn_length | rewrite skipn_length]; lia.
+    + change (u_lnl_items (b_contra b1)) with (u_sel_items sel_lnl (b_contra b1)). rewrite HcL. fold nL.
+      destruct (b_symL b1); [rewrite firstn_length | rewrite skipn_length]; lia.
+Qed.
+
+Theorem bi_full_assignment_absorbing : C12_bi_full_assignment_absorbing_stmt.
+Proof.
+  intros b1 b2 v H1 Hsk Hl Hacc. set (names := map fst (b_items b1)) in *. set (kw := kw_of names v) in *.
+  assert (H2 : b_names_ok b2 = true) by (apply (b_names_ok_sk b1 b2 Hsk H1)).
+  destruct (sk_bi_inv b1 b2 Hsk) as (Hi & Hc & HT & HL).
+  destruct (b_names_ok_parts b1 H1) as (Hi1 & Hc1 & _). destruct (b_names_ok_parts b2 H2) as (Hi2 & Hc2 & _).
+  assert (HpT : side_plan is_tumor_spread (b_symT b2) b2 [] kw = side_plan is_tumor_spread (b_symT b1) b1 [] kw).
+  { rewrite <- !plan_side_order by assumption. rewrite <- HT. symmetry. apply plan_covered.
+    - apply side_order_keys_sk; [apply kind_sel_tumor | exact Hsk].
+    - intros k Hk. apply (b_lk_full b1 v H1 Hl). apply (side_order_names b1 is_tumor_spread (b_symT b1)); [left; split; reflexivity | exact Hk]. }
+  assert (HpL : side_plan sel_lnl (b_symL b2) b2 [] kw = side_plan sel_lnl (b_symL b1) b1 [] kw).
+  { rewrite <- !plan_side_order by assumption. rewrite <- HL. symmetry. apply plan_covered.
+    - apply side_order_keys_sk; [apply kind_sel_lnl | exact Hsk].
+    - intros k Hk. apply (b_lk_full b1 v H1 Hl). apply (side_order_names b1 sel_lnl (b_symL b1)); [right; split; reflexivity | exact Hk]. }
+  assert (HpDi : plan (side_lk "ipsi" kw) (u_dist_items (b_ipsi b2)) [] = plan (side_lk "ipsi" kw) (u_dist_items (b_ipsi b1)) []).
+  { rewrite <- (plan_b_lk_dists kw (b_ipsi b2) [] Hi2), <- (plan_b_lk_dists kw (b_ipsi b1) [] Hi1). symmetry. apply plan_covered.
+    - apply u_dist_keys_sk, Hi.
+    - intros k Hk. apply (b_lk_full b1 v H1 Hl). apply (dist_names b1), Hk. }
+  assert (HpDc : plan (side_lk "contra" kw) (u_dist_items (b_contra b2)) [] = plan (side_lk "contra" kw) (u_dist_items (b_contra b1)) []).
+  { symmetry. apply plan_covered; [apply u_dist_keys_sk, Hc | intros k Hk; apply (side_lk_contra_dist b1 v H1 Hl), Hk]. }
+  assert (Hsome : snd (b_set_params b1 [] kw) <> None).
+  { pose proof (bi_set_spec b1 [] kw H1) as Hs. cbv zeta in Hs. rewrite Hacc in Hs. destruct Hs as (qs & _ & Hsnd & _). rewrite Hsnd. discriminate. }
+  pose proof (b_set_params_steps b1 [] kw H1) as S1. pose proof (b_set_params_steps b2 [] kw H2) as S2. cbv zeta in S1, S2.
+  rewrite !skipn_nil in S1, S2. rewrite HpT, HpL, HpDi, HpDc in S2.
+  destruct (sk_uni_inv _ _ Hi) as (_ & _ & _ & _ & _ & Hdi & Hmi). destruct (sk_uni_inv _ _ Hc) as (_ & _ & _ & _ & _ & Hdc & Hmc).
+  rewrite <- Hmi, <- Hmc, <- (dists_put_sk _ _ _ _ Hdi), <- (dists_put_sk _ _ _ _ Hdc) in S2.
+  destruct (all_unit (side_plan is_tumor_spread (b_symT b1) b1 [] kw)) as [qsT|] eqn:ET; [|contradiction].
+  destruct (all_unit (side_plan sel_lnl (b_symL b1) b1 [] kw)) as [qsL|] eqn:EL; [|contradiction].
+  destruct (dists_put (u_maxt (b_ipsi b1)) _ _) as [dsi|]; [|contradiction].
+  destruct (dists_put (u_maxt (b_contra b1)) _ _) as [dsc|]; [|contradiction].
+  rewrite S1, S2. fold (b_final b1 qsT qsL dsi dsc) (b_final b2 qsT qsL dsi dsc). split; [|reflexivity].
+  rewrite ?skipn_nil. f_equal. apply b_final_sk; [exact Hsk | exact H1 | |].
+  - apply all_unit_length in ET. rewrite side_plan_length in ET. exact ET.
+  - apply all_unit_length in EL. rewrite side_plan_length in EL. exact EL.
+Qed.
+
+Lemma after_given_bi R (lik : model -> R) np b gs : exists b1, after_given R lik np (MBi b) gs = MBi b1 /\ sk_bi b1 = sk_bi b.
+Proof.
+  pose proof (config_preserved R lik np (MBi b) gs) as H. unfold same_config in H.
+  destruct (after_given R lik np (MBi b) gs) as [u1|b1|ml|h]; cbn [sk_model] in H; try discriminate.
+  apply MBi_inj in H. exists b1. split; [reflexivity | exact H].
+Qed.
+Lemma b_accepts_full_sk b1 b2 v : sk_bi b1 = sk_bi b2 -> b_names_ok b1 = true -> length v = length (b_items b1) ->
+  b_accepts b1 [] (kw_of (map fst (b_items b1)) v) = true -> b_accepts b2 [] (kw_of (map fst (b_items b1)) v) = true.
+Proof.
+  intros Hsk H1 Hl Hacc. pose proof (b_names_ok_sk b1 b2 Hsk H1) as H2.
+  destruct (bi_full_assignment_absorbing b1 b2 v H1 Hsk Hl Hacc) as [Heq Hsnd].
+  apply (b_not_raise_accepts b2 _ _ H2). rewrite <- Heq, Hsnd. discriminate.
+Qed.
+
+Theorem bi_rejected_then_valid : C12_bi_rejected_then_valid_stmt.
+Proof.
+  intros R lik b b0 gs v g H Hcfg Hl Hacc Hg.
+  destruct (after_given_bi R lik None b gs) as (b1 & -> & Hsk1).
+  unfold same_config in Hcfg. cbn [sk_model] in Hcfg. apply MBi_inj in Hcfg. rename Hcfg into Hsk0.
+  assert (H1 : b_names_ok b1 = true) by (apply (b_names_ok_sk b b1); [symmetry; exact Hsk1 | exact H]).
+  assert (H0 : b_names_ok b0 = true) by (apply (b_names_ok_sk b b0 Hsk0 H)).
+  set (names := map fst (b_items b)) in *.
+  assert (Hn1 : map fst (b_items b1) = names) by (apply b_items_keys_sk, Hsk1).
+  assert (Hn0 : map fst (b_items b0) = names) by (symmetry; apply b_items_keys_sk, Hsk0).
+  assert (Hlen : length (vals v) = length names) by (rewrite vals_length; unfold names; rewrite map_length; exact Hl).
+  rewrite (likelihood_both_forms R lik None (MBi b1) names (vals v) g);
+    [| unfold named_params; rewrite param_names_bi, (b_got_spec b1 H1), Hn1; reflexivity | apply b_items_NoDup, H | exact Hlen | exact Hg].
+  rewrite (likelihood_both_forms R lik None (MBi b0) names (vals v) g);
+    [| unfold named_params; rewrite param_names_bi, (b_got_spec b0 H0), Hn0; reflexivity | apply b_items_NoDup, H | exact Hlen | exact Hg].
+  cbn [set_params]. fold (kw_of names v).
+  destruct (bi_full_assignment_absorbing b b1 v H (eq_sym Hsk1) Hl Hacc) as [E1 _].
+  destruct (bi_full_assignment_absorbing b b0 v H Hsk0 Hl Hacc) as [E0 _].
+  fold names in E1, E0. rewrite <- E1, <- E0. reflexivity.
+Qed.
+
+Theorem bi_named_subset_scored : C12_bi_named_subset_scored_stmt.
+Proof.
+  intros R lik b names v g H Hnd Hincl Hl Hg r. subst r.
+  rewrite (likelihood_both_forms R lik (Some names) (MBi b) names (vals v) g);
+    [| unfold named_params; rewrite param_names_bi; reflexivity | exact Hnd | rewrite vals_length; exact Hl | exact Hg].
+  cbn [set_params fst snd]. set (kw := combine names (vals v)).
+  destruct (b_set_params b [] kw) as [b' o] eqn:E. cbn [fst snd]. destruct o as [rest|]; [right | left; reflexivity].
+  split; [reflexivity|]. intros k q Hin.
+  change (param_items (MBi b')) with (Some (b_got b')). cbn [option_map]. f_equal.
+  pose proof (bi_keyword_over_positional b [] kw k q H) as Hk. cbv zeta in Hk. rewrite E in Hk. cbn [fst snd] in Hk.
+  assert (Hkn : In k (map fst (b_items b))) by (apply Hincl; apply in_combine_l in Hin; exact Hin).
+  apply Hk; [exact Hkn | | discriminate].
+  (* the keyword reaches the parameter: the only more specific spelling, "ipsi_" ++ k, is not a declared name *)
+  assert (Hnd' : NoDup (map fst kw)) by (unfold kw; rewrite combine_keys by (rewrite vals_length; lia); exact Hnd).
+  assert (Hkeys : map fst kw = names) by (unfold kw; apply combine_keys; rewrite vals_length; lia).
+  assert (Hlast : kw_last k kw = Some (V q)).
+  { rewrite kw_last_NoDup by exact Hnd'. apply kw_get_NoDup_In; [exact Hnd' | apply in_combine_vals, Hin]. }
+  assert (Hnone : forall k', ~ In k' (map fst (b_items b)) -> kw_last k' kw = None).
+  { intros k' Hni. rewrite kw_last_NoDup by exact Hnd'. apply kw_get_In_None. rewrite Hkeys. intros Hx. apply Hni, Hincl, Hx. }
+  destruct (b_name_form b H k Hkn) as [(n & t & ->)|[(n & t & ->)|(n & t & -> & Hn1 & Hn2 & Hni)]].
+  - cbn [b_lk String.eqb Ascii.eqb Bool.eqb]. unfold side_lk, eff. rewrite Hlast. reflexivity.
+  - cbn [b_lk]. change (String.eqb "contra" "ipsi") with false. change (String.eqb "contra" "contra") with true. cbv iota.
+    unfold side_lk, eff. rewrite Hlast. reflexivity.
+  - rewrite b_lk_plain by assumption. unfold side_lk, eff. rewrite (Hnone _ Hni).
+    unfold head_of. cbn [partition_key fst mem sides]. apply str_eqb_neq in Hn1, Hn2. rewrite Hn1, Hn2. cbn [orb]. rewrite Hlast. reflexivity.
+Qed.
+
+(** * HPVUnilateral (known finding D8): refutations by concrete witnesses *)
+Definition C12_hpv : hpvmodel := new_hpv (new_uni C10_g2 [("early", Param 0 [("p", qc 1 2)])] 3).
+Definition C12_hpv_names : list path :=
+  [["hpv"; "TtoII"; "spread"]; ["hpv"; "TtoIII"; "spread"]; ["nohpv"; "TtoII"; "spread"]; ["IItoIII"; "spread"]; ["early"; "p"]].
+
+Theorem hpv_not_at_v_refuted : C12_hpv_not_at_v_refuted_stmt.
+Proof.
+  exists C12_hpv, C12_hpv_names, [qc 1 10; qc 2 10; qc 3 10; qc 4 10; qc 1 4].
+  split; [vm_compute; reflexivity|]. split; [reflexivity|]. split; [vm_compute; reflexivity|].
+  intros R lik g [-> | ->]; cbv zeta; (split; [vm_compute; reflexivity|]);
+    intros H; apply (f_equal (option_map (map qout))) in H; vm_compute in H; discriminate H.
+Qed.
+Theorem hpv_invalid_not_rejected_refuted : C12_hpv_invalid_not_rejected_refuted_stmt.
+Proof.
+  exists C12_hpv, C12_hpv_names, [Bad; V (qc 2 1); Bad; V (qc 1 2); V (qc 1 4)].
+  split; [vm_compute; reflexivity|]. split; [reflexivity|]. split; [left; reflexivity|]. split; [right; left; reflexivity|].
+  intros R lik g [-> | ->]; eexists; vm_compute; reflexivity.
+Qed.
